@@ -128,17 +128,23 @@ func boolCallEdges(f *ir.Func, call *ast.CallExpr) (t, fl []*cfgx.Edge) {
 // pathNodesBetween returns the nodes lying on some path from a successor of
 // `from` to `to` (exclusive of both).
 func pathNodesBetween(g *cfgx.Graph, from, to *cfgx.Node) map[*cfgx.Node]bool {
+	return pathNodesBetweenAvoiding(g, from, to, nil)
+}
+
+// pathNodesBetweenAvoiding is pathNodesBetween restricted to paths that do not
+// pass through avoid (e.g. the head of the enclosing loop: same iteration only).
+func pathNodesBetweenAvoiding(g *cfgx.Graph, from, to, avoid *cfgx.Node) map[*cfgx.Node]bool {
 	var st []*cfgx.Visit
 	for _, e := range from.Succs {
 		st = append(st, cfgx.StartAfter(e, 0))
 	}
-	fwd := g.Reach(st, func(n *cfgx.Node) bool { return n == to })
+	fwd := g.Reach(st, func(n *cfgx.Node) bool { return n == to || n == avoid })
 	// backward reachability from `to`
 	back := map[*cfgx.Node]bool{}
 	var walk func(n *cfgx.Node)
 	walk = func(n *cfgx.Node) {
 		for _, e := range n.Preds {
-			if !back[e.From] {
+			if !back[e.From] && e.From != avoid {
 				back[e.From] = true
 				if e.From != from {
 					walk(e.From)
@@ -149,7 +155,7 @@ func pathNodesBetween(g *cfgx.Graph, from, to *cfgx.Node) map[*cfgx.Node]bool {
 	walk(to)
 	out := map[*cfgx.Node]bool{}
 	for n := range fwd {
-		if back[n] && n != from && n != to {
+		if back[n] && n != from && n != to && n != avoid {
 			out[n] = true
 		}
 	}
@@ -192,4 +198,48 @@ func fieldWritten(f *ir.Func, obj types.Object, field string) bool {
 		}
 	}
 	return false
+}
+
+// derivesFromCall reports whether e contains a call whose callee satisfies pred,
+// looking through local variables with a single whole definition (hoisted
+// loop invariants, intermediates); at most 4 hops.
+func derivesFromCall(f *ir.Func, e ast.Node, pred func(ir.Call) bool) bool {
+	return derivesFromCallN(f, e, pred, 4)
+}
+
+func derivesFromCallN(f *ir.Func, e ast.Node, pred func(ir.Call) bool, depth int) bool {
+	if e == nil {
+		return false
+	}
+	for _, call := range f.CallsIn(e, false) {
+		if pred(call) {
+			return true
+		}
+	}
+	if depth == 0 {
+		return false
+	}
+	found := false
+	ast.Inspect(e, func(n ast.Node) bool {
+		if found {
+			return false
+		}
+		if _, ok := n.(*ast.FuncLit); ok {
+			return false
+		}
+		id, ok := n.(*ast.Ident)
+		if !ok {
+			return true
+		}
+		obj, _ := f.ObjOf(id).(*types.Var)
+		if obj == nil || obj.IsField() || obj.Parent() == nil || obj.Parent() == obj.Pkg().Scope() {
+			return true
+		}
+		defs := wholeDefs(f, obj)
+		if len(defs) == 1 && defs[0].RHS != nil && derivesFromCallN(f, defs[0].RHS, pred, depth-1) {
+			found = true
+		}
+		return true
+	})
+	return found
 }
